@@ -11,16 +11,16 @@ Hdr == Rec[1]              \* {"ev":"hdr","n":number of contexts,"hist":history 
 TraceConns == 0..(Hdr.n - 1)
 TraceHist == Hdr.hist
 
-VARIABLE l
-tvars == <<vars, l>>
-TraceInit == Init /\ l = 2
+VARIABLES l, batch          \* batch: the contexts the collector pass in progress took off the drop list, in list order
+tvars == <<vars, l, batch>>
+TraceInit == Init /\ l = 2 /\ batch = <<>>
 (* traces without reply observations: which failure reply a failed handshake got is not observable; states that
    differ only in `replies` are identified so that the search stays linear *)
-NoReplyView == <<ph, log, upUp, alive, gcq, history, lines, created, l>>
+NoReplyView == <<ph, log, upUp, alive, gcq, history, lines, created, l, batch>>
 IsEvent(e) == l <= Len(Rec) /\ Rec[l].ev = e /\ l' = l + 1
 ToSet(s) == {s[i] : i \in 1..Len(s)}
 
-TNew == IsEvent("ctx_new") /\ Create(Rec[l].id)
+TNew == IsEvent("ctx_new") /\ Create(Rec[l].id) /\ UNCHANGED batch
 TState == /\ IsEvent("state")
           /\ LET c == Rec[l].id  s == Rec[l].st IN
              CASE s = "ClientRequested" -> Enqueue(c)
@@ -30,45 +30,54 @@ TState == /\ IsEvent("state")
                [] s = "Terminated" -> RelayOk(c)
                [] s = "ErrorOccured" -> (Refuse(c) \/ ConnectFail(c) \/ RelayErr(c) \/ \E k \in {"garbage", "badauth", "badcmd"} : HandshakeFail(c, k))
                [] OTHER -> FALSE
+          /\ UNCHANGED batch
 TConnEnd == /\ IsEvent("connect_end")
             /\ IF Rec[l].ok THEN ConnectOk(Rec[l].id) ELSE (ph[Rec[l].id] = "connecting" /\ UNCHANGED vars)
-TDrop == IsEvent("drop") /\ Drop(Rec[l].id)
-(* Gc, except that the order in which contexts dropped within the same tick were pushed on the gc list is *)
-(* not observable (the drop event is emitted after the list's lock is released): any order of the batch.   *)
+            /\ UNCHANGED batch
+TDrop == IsEvent("drop") /\ Drop(Rec[l].id) /\ UNCHANGED batch
+(* the collector swaps the drop list out under the list's lock; both hooks (drop, gc_take) fire under that lock, so the *)
+(* contexts it took are exactly the first n of the drops seen so far, in that order                                    *)
+TGcTake == /\ IsEvent("gc_take") /\ batch = <<>> /\ Rec[l].n >= 1 /\ Rec[l].n <= Len(gcq)
+           /\ batch' = SubSeq(gcq, 1, Rec[l].n)
+           /\ gcq' = SubSeq(gcq, Rec[l].n + 1, Len(gcq))
+           /\ UNCHANGED <<ph, log, upUp, replies, alive, history, lines, created>>
+(* the end of the pass: every context of the batch got its log line, left the registry and was pushed to the front of  *)
+(* the history in batch order (so the last one is the newest), which was then cut to its size                           *)
 MinN(a, b) == IF a < b THEN a ELSE b
-TGc == /\ IsEvent("gc") /\ gcq # <<>>
-       /\ LET B == ToSet(gcq)  H == Rec[l].history_ids  k == MinN(Len(gcq), HistSize) IN
-            /\ Len(H) = MinN(HistSize, Len(gcq) + Len(history))
-            /\ \A i \in 1..k : H[i] \in B
-            /\ Cardinality({H[i] : i \in 1..k}) = k
+TGc == /\ IsEvent("gc") /\ batch # <<>>
+       /\ LET B == ToSet(batch)  H == Rec[l].history_ids  n == Len(batch)  k == MinN(n, HistSize) IN
+            /\ Len(H) = MinN(HistSize, n + Len(history))
+            /\ \A i \in 1..k : H[i] = batch[n - i + 1]
             /\ SubSeq(H, k + 1, Len(H)) = SubSeq(history, 1, Len(H) - k)
             /\ history' = H
             /\ alive' = alive \ B
             /\ lines' = [c \in Conns |-> IF c \in B THEN lines[c] + 1 ELSE lines[c]]
-            /\ gcq' = <<>>
+            /\ batch' = <<>>
             /\ Cardinality(alive') = Rec[l].alive_len
-       /\ UNCHANGED <<ph, log, upUp, replies, created>>
+       /\ UNCHANGED <<ph, log, upUp, replies, created, gcq>>
 (* API snapshots taken by the driver while nothing else was going on *)
-TLive == /\ IsEvent("api_live") /\ UNCHANGED vars
-         /\ ToSet(Rec[l].ids) = alive \ ToSet(gcq)
-THistory == /\ IsEvent("api_history") /\ UNCHANGED vars
+(* (taken at quiescent points: nothing may be waiting for the collector any more) *)
+TLive == /\ IsEvent("api_live") /\ UNCHANGED <<vars, batch>>
+         /\ ToSet(Rec[l].ids) = alive \ (ToSet(gcq) \cup ToSet(batch))
+         /\ gcq = <<>> /\ batch = <<>>
+THistory == /\ IsEvent("api_history") /\ UNCHANGED <<vars, batch>>
             /\ Rec[l].ids = history
 (* what the client of connection id received until end of stream *)
-TReply == /\ IsEvent("obs_reply") /\ UNCHANGED vars
+TReply == /\ IsEvent("obs_reply") /\ UNCHANGED <<vars, batch>>
           /\ LET c == Rec[l].id IN
                /\ replies[c] = (IF Rec[l].kind = "none" THEN <<>> ELSE <<Rec[l].kind>>)
                /\ Rec[l].wellformed
                /\ (Rec[l].kind = "fail" => Rec[l].closed)
                /\ (Rec[l].kind = "ok" => Rec[l].upstream_seen)          \* established only after the upstream was
                /\ (Rec[l].must_not_reach_upstream => ~Rec[l].upstream_seen)
-TRecord == /\ IsEvent("obs_record") /\ UNCHANGED vars
+TRecord == /\ IsEvent("obs_record") /\ UNCHANGED <<vars, batch>>
            /\ Rec[l].listener_ok /\ Rec[l].source_ok /\ Rec[l].target_ok /\ Rec[l].connector_ok /\ Rec[l].bytes_ok
            /\ Rec[l].states = log[Rec[l].id] /\ Rec[l].error_recorded = (ph[Rec[l].id] = "error")
 (* access log: exactly one line per collected connection *)
-TLines == /\ IsEvent("log_lines") /\ UNCHANGED vars
+TLines == /\ IsEvent("log_lines") /\ UNCHANGED <<vars, batch>>
           /\ \A c \in Conns : Cardinality({i \in 1..Len(Rec[l].ids) : Rec[l].ids[i] = c}) = lines[c]
           /\ ToSet(Rec[l].ids) \subseteq Conns
-TraceNext == TNew \/ TState \/ TConnEnd \/ TDrop \/ TGc \/ TLive \/ THistory \/ TReply \/ TRecord \/ TLines
+TraceNext == TNew \/ TState \/ TConnEnd \/ TDrop \/ TGcTake \/ TGc \/ TLive \/ THistory \/ TReply \/ TRecord \/ TLines
 TraceSpec == TraceInit /\ [][TraceNext]_tvars
 
 TraceAccepted ==
